@@ -117,6 +117,36 @@ def http_response(code=200, body=b"", ctype="application/hap+json", reason=None,
     return head.encode() + b"\r\n" + body
 
 
+HTTP_STYLES = ("lower", "upper", "mixed", "chunked", "chunked-lower", "chunked-2", "lws", "extra-headers", "no-ctype")
+
+
+def restyle(wire: bytes, style: str) -> bytes:
+    """The same HTTP message as another (equally legal, RFC 7230) byte sequence: header names are case-insensitive, optional
+    whitespace may surround a value, further headers may be present, a body may be chunked instead of length-prefixed."""
+    head, sep, body = wire.partition(b"\r\n\r\n")
+    if not sep:
+        return wire
+    lines = head.split(b"\r\n")
+    start, hdrs = lines[0], [ln.split(b": ", 1) for ln in lines[1:]]
+    has_len = any(k == b"Content-Length" for k, _ in hdrs)
+    if style in ("lower", "upper"):
+        hdrs = [(k.lower() if style == "lower" else k.upper(), v) for k, v in hdrs]
+    elif style == "mixed":
+        hdrs = [(k[:1] + k[1:].lower(), v) for k, v in hdrs]  # Content-length, Content-type
+    elif style == "lws":
+        hdrs = [(k, b" " + v + b" \t") for k, v in hdrs]
+    elif style == "extra-headers":
+        hdrs = [(b"Date", b"Thu, 01 Jan 1970 00:00:00 GMT"), (b"X-Content-Length-Hint", b"0")] + hdrs + [(b"Connection", b"keep-alive")]
+    elif style == "no-ctype":
+        hdrs = [(k, v) for k, v in hdrs if k != b"Content-Type"]
+    elif style.startswith("chunked") and has_len:
+        te = b"transfer-encoding" if style == "chunked-lower" else b"Transfer-Encoding"
+        hdrs = [(k, v) for k, v in hdrs if k != b"Content-Length"] + [(te, b"chunked")]
+        parts = [body] if style != "chunked-2" or len(body) < 2 else [body[: len(body) // 2], body[len(body) // 2 :]]
+        body = b"".join(b"%x\r\n%s\r\n" % (len(c), c) for c in parts if c) + b"0\r\n\r\n"
+    return start + b"\r\n" + b"".join(k + b": " + v + b"\r\n" for k, v in hdrs) + b"\r\n" + body
+
+
 def event_message(body: bytes):
     return http_response(200, body, proto="EVENT/1.0")
 
@@ -169,6 +199,9 @@ class Session:
         self.nreq = 0
 
     def respond(self, wire_plain: bytes, sizes=None) -> bytes:
+        style = getattr(self.acc, "http_style", None)
+        if style:
+            wire_plain = restyle(wire_plain, style)
         if self.framer:
             return self.framer.seal(wire_plain, sizes or self.acc.frame_sizes)
         return wire_plain
@@ -258,11 +291,16 @@ class Session:
             items, shared, acc_pub = hap.pv_m2(ident, eph_seed, ios_pub, **kw)
             if callable(fault):
                 items = fault(items)
+            if isinstance(fault, dict) and fault.get("m2") is not None:
+                self.pv = (shared, acc_pub, ios_pub)
+                return http_response(fault.get("http", 200), tlv8.encode(fault["m2"](items)), "application/pairing+tlv8"), False
             self.pv = (shared, acc_pub, ios_pub)
             return tlv(items), False
         if st == b"\x03" and self.pv:
             shared, acc_pub, ios_pub = self.pv
             self.m3_ok = hap.pv_check_m3(req, shared, acc_pub, ios_pub, self.acc.controllers)
+            if isinstance(fault, dict) and fault.get("m4") is not None:
+                return http_response(fault.get("http", 200), tlv8.encode(fault["m4"]([(hap.T_STATE, b"\x04")])), "application/pairing+tlv8"), False
             if fault == "m4-auth-error-470":
                 return http_response(470, tlv8.encode([(hap.T_STATE, b"\x04"), (hap.T_ERROR, b"\x02")]), "application/pairing+tlv8"), False
             if fault == "m4-auth-error-470-no-state":
